@@ -13,7 +13,7 @@ DESCRIPTION = {
              "unknown / wrong-type replies raise ProtocolError and complete nothing.  Exhaustive cross-type job: each of the 6 request kinds pending alone x each of the 5 other reply types x {success form, ERROR form} x 3 "
              "serializers - the wrong-type reply bearing the pending id is a protocol violation and the genuine reply still completes the request.  Enumerated synchronous-router job: the reply (success or ERROR) is delivered while transport.send() of the request is still running, for all "
              "six kinds: the request completes exactly once, a second copy is rejected.  IdGenerator is checked directly around 2^53.  Every wire option of the four option objects (transaction_hash, caller / caller_authid / caller_authrole, forward_for, get_retained, concurrency, force_reregister, the invoke policies) is drawn independently and must be on the request exactly as given (absent ones absent).  Enumerated progress_grid job: 2-3 calls outstanding x subsets with a progress handler x details x every order of progressive results x 2 orders of final results - every progressive result reaches the handler of exactly its own call, nothing completes early.  unregister() may be repeated while an earlier UNREGISTER for the same registration is unanswered (also enumerated: 2-3 outstanding x every reply order x UNREGISTERED/ERROR).  Enumerated decorated_objects job: register(obj)/subscribe(obj) of an object with three decorated methods x which of them carry decorator-level options x options passed to the call: each request carries its own decorator's options, else the call's.  Non-trivial = >=2 outstanding requests of "
-             "different kinds answered in non-issue order; distinct by digest of the operation sequence. Send faults (enumerated): for each of the six request kinds the transport's send() fails (message above the size limit, unserializable, transport gone): the call fails, nothing is written, the request is gone - a later reply bearing its id (success or ERROR form) is a protocol violation - other pending requests are untouched and the next request completes normally."),
+             "different kinds answered in non-issue order; distinct by digest of the operation sequence. Send faults (enumerated): for each of the six request kinds the transport's send() fails (message above the size limit, unserializable, transport gone): the call fails, nothing is written, the request is gone - a later reply bearing its id (success or ERROR form) is a protocol violation - other pending requests are untouched and the next request completes normally. Duplicate and unknown-id replies to calls are also sent in their progressive form (RESULT progress=true for a call that is no longer, or never was, pending)."),
     "assumptions": ["a progressive result for a call that did not ask for progress is a router fault: ignoring it and rejecting it are both accepted, completing the call with it is not"],
 }
 
@@ -411,6 +411,10 @@ class Interp:
                 else:
                     msg = M.Error(self.REQ_TYPE[other], r["id"], uri)
                 tag = "wrongtype|%s-for-%s" % (other, r["kind"])
+            if kind in ("duplicate", "unknown") and type(msg).__name__ == "Result" and (len(args) + idx) % 2 == 1:
+                # ... also in its progressive form: a progressive RESULT for a call that is no longer (or never was) pending matches nothing either
+                msg = M.Result(msg.request, args=list(args) or None, kwargs=dict(kwargs) or None, progress=True)
+                tag += "|progressive"
             # a reply of another type whose id happens to be pending for *that* type is a legitimate reply: skip those
             if kind == "wrongtype" and any(p["id"] == r["id"] and p["kind"] == other for p in pending):
                 return
